@@ -319,6 +319,54 @@ def h_noop_uninit(eng, kind_first):
     eng.check(len(list(ir.cfg)) == (1 if kind_first == "c" else 0), "empty apply() changed the CFG")
 
 
+def h_noop_uninit_gap(eng, kind_first):
+    """Stored bytes end with the first block; behind it an uninitialised gap that no block covers, then a block that lies in
+    the uninitialised part.  An empty apply() turns exactly the gap into nops (after code) / zeros (after data) covered by a
+    block of the first block's kind, and moves nothing."""
+    from gtirb_rewriting import RewritingContext
+
+    ir, m, sect = _mk_module()
+    A = eng.int("A", 64, None)
+    s0 = eng.int("s0", 1, None)
+    g = eng.int("g", 1, None)
+    s1 = eng.int("s1", 1, None)
+    c, raw = _source(eng, "I", s0)
+    bi = gtirb.ByteInterval(contents=b"", address=A, section=sect)
+    if eng.sym:
+        bi.size = s0 + g + s1
+        bi.contents = c
+    else:
+        bi.contents = c
+        bi.size = s0 + g + s1
+    cls0 = gtirb.CodeBlock if kind_first == "c" else gtirb.DataBlock
+    b0 = cls0(offset=0, size=s0)
+    b0.byte_interval = bi
+    b1 = gtirb.DataBlock(offset=s0 + g, size=s1)
+    b1.byte_interval = bi
+    sym = gtirb.Symbol("x", payload=b1, module=m)
+    ctx = RewritingContext(m, [], expensive_assertions=False)
+    ctx.apply()
+    eng.check(And(bi.address == A, bi.size == s0 + g + s1), "empty apply() moved or resized the interval")
+    eng.check(And(b0.offset == 0, b0.size == s0, b1.offset == s0 + g, b1.size == s1), "empty apply() moved a block")
+    eng.check(b0.byte_interval is bi and b1.byte_interval is bi and sym.referent is b1, "empty apply() moved a block to another interval")
+    others = sorted([b for b in bi.blocks if b is not b0 and b is not b1], key=lambda b: b.offset)
+    eng.check(len(others) >= 1, "the uninitialised gap in front of a block is not covered by a padding block")
+    cur = s0
+    for pb in others:
+        eng.check(type(pb) is cls0, "the gap after a %s is covered by a %s" % (cls0.__name__, type(pb).__name__))
+        eng.check(pb.offset == cur, "padding blocks do not tile the gap")
+        cur = cur + pb.size
+    eng.check(cur == s0 + g, "padding blocks do not cover exactly the gap")
+    unit = b"\x90" if kind_first == "c" else b"\x00"
+    init = bi.contents
+    if eng.sym:
+        want = c + Rope([("rep:" + unit.hex(), 0, g)])
+        got = init[:s0 + g] if isinstance(init, Rope) else Rope.lit(bytes(init)[:s0 + g])
+        rope_equal_check(eng, got, want, "stored bytes and gap fill after an empty apply()")
+    else:
+        eng.check(bytes(init)[:s0 + g] == raw + unit * g, "stored bytes and gap fill after an empty apply() differ: %s" % bytes(init)[:s0 + g].hex())
+
+
 # ---------------------------------------------------------------------------
 # alignment kept through a real rewrite
 # ---------------------------------------------------------------------------
@@ -593,6 +641,7 @@ def make_check(tier):
         chk.add("noop/" + layout, h_noop_apply, params=dict(spec=s2), timeout=900)
     for kf in ("c", "d"):
         chk.add("noop-uninit/%s" % kf, h_noop_uninit, params=dict(kind_first=kf), timeout=900)
+        chk.add("noop-uninit-gap/%s" % kf, h_noop_uninit_gap, params=dict(kind_first=kf), timeout=900)
     for align in ((2, 8, 16) if quick else (2, 4, 8, 16, 32)):
         for patch in ("mov", "label", "byte"):
             chk.add("applyalign/a%d/%s" % (align, patch), h_apply_align, params=dict(align=align, patch=patch, existing_table="yes"),
